@@ -42,7 +42,7 @@ Proof. exact excluded_only_object_unmodified. Qed.
 
 Theorem C13_no_record_without_modification : forall g s objs ents assoc,
   g_versioning g = true -> u_cur (s_uow s) = None ->
-  existsb (obj_modified g) objs = false ->
+  existsb (obj_modified g) objs || existsb (tracked g) ents = false ->
   d_tx (s_db (flush g s objs ents assoc)) = d_tx (s_db s) /\
   u_cur (s_uow (flush g s objs ents assoc)) = None.
 Proof.
